@@ -238,7 +238,20 @@ where
                 "v_id" => (u, id),
                 _ => (u, vv),
             };
-            let label2 = if pert == "label" { gets(v, "scheme2") } else { label };
+            let (u2, v2) = if pert == "cross_forge" {
+                // built from public trait functions only: a challenge value for some other commitment at the same
+                // instant, the holder's signature under `scheme`, and the two hash points
+                use blsful::inner_types::Field;
+                let y0 = <C as BlsSignatureProof>::compute_y(g * Sc::<C>::from(77u64), BASE_MS);
+                let x = Sc::<C>::from(123_456_789u64);
+                let hs = <C as HashToPoint>::hash_to_point(&msg, crate::signcrypt::dst_of::<C>(scheme_of(scheme)));
+                let ho = <C as HashToPoint>::hash_to_point(&msg, crate::signcrypt::dst_of::<C>(scheme_of(gets(v, "scheme2"))));
+                let _ = Sc::<C>::ZERO;
+                (hs * (x + y0) - ho * y0, -(*sig.as_raw_value() * (x + y0)))
+            } else {
+                (u2, v2)
+            };
+            let label2 = if pert == "label" || pert == "cross_forge" { gets(v, "scheme2") } else { label };
             p.proof = mk::<C>(label2, u2, v2);
             p.timestamp = match pert {
                 "ts_past" => BASE_MS - 10,
